@@ -198,6 +198,13 @@ func generate(out *kit.Out, f kit.Flags) int {
 	r := kit.NewRand(f.Seed)
 	for i := 0; i < f.N; i++ {
 		rr := r.Fork()
+		if i%12 == 10 {
+			// one case in twelve: process deaths inside the V1->V2 topic-store migration (mig.go)
+			if rc := runAndEmit(out, fmt.Sprintf("m%d", i), genMig(rr)); rc != 0 {
+				return rc
+			}
+			continue
+		}
 		if i%4 == 3 {
 			// node level: about a quarter of the cases (each restart starts a TaskMaster and a task)
 			size := 2 + rr.Intn(6)
